@@ -50,6 +50,8 @@ type WriteFact struct {
 	// Origin: position of the store statement itself (Pos is rewritten to the
 	// call site when a fact is translated into a caller).
 	Origin token.Pos
+	// Counter: the store is an increment / decrement statement (x++): a commutative update.
+	Counter bool
 }
 
 func (w WriteFact) PathString() string {
@@ -396,6 +398,9 @@ func (env *funcEnv) addStore(target ast.Expr, kind string, pos token.Pos) {
 		return
 	}
 	f := WriteFact{Root: root, Global: global, Kind: kind, Pos: pos, Direct: true, Node: env.curNode, Origin: pos}
+	if _, isIncDec := env.curNode.(*ast.IncDecStmt); isIncDec && kind == "store" {
+		f.Counter = true
+	}
 	for _, s := range steps {
 		if s.field != nil {
 			f.Path = append(f.Path, s.field)
@@ -677,7 +682,7 @@ func (env *funcEnv) translate(call *ast.CallExpr, fn *types.Func, facts []WriteF
 			if root == rootLocal {
 				continue
 			}
-			nf := WriteFact{Root: root, Global: global, Kind: f.Kind, Pos: call.Pos(), Via: via, Elem: f.Elem, Node: call, ConstRHS: f.ConstRHS, ArgRooted: f.ArgRooted, Origin: f.Origin}
+			nf := WriteFact{Root: root, Global: global, Kind: f.Kind, Pos: call.Pos(), Via: via, Elem: f.Elem, Node: call, ConstRHS: f.ConstRHS, ArgRooted: f.ArgRooted, Origin: f.Origin, Counter: f.Counter}
 			for _, s := range steps {
 				if s.field != nil {
 					nf.Path = append(nf.Path, s.field)
